@@ -1,11 +1,12 @@
 """C12 — detectors measure consistent integrated intensities.
 
 Space: waves (seeded complex arrays) on grids {(32,32), (36,30), (33,31)} x energies x ensembles {single, 3 positions,
-2x2 scan} x ALL (inner, outer) pairs from {0, 3, 7.5, 10, 21.3, 40, max} with inner < outer x step in {1, 0.5, 2.5} x
+2x2 scan} x ALL (inner, outer) pairs from {0, 3, 7.5, 10, 21.3, 40, max} with inner < outer x step in {1, 0.5, 2.5, and the non-dyadic 0.2, 0.1, 0.3, 0.7 with inner offsets 0 and 10} x
 segments (nr, na) in {(1,1), (2,4), (3,1)}.
 Oracle: AnnularDetector == DiffractionPatterns('full').integrate_radial == explicit per-pixel sum over fftfreq
 coordinates; sum of SegmentedDetector segments == AnnularDetector; A(a,b) + A(b,c) == A(a,c); FlexibleAnnularDetector
--> integrate_radial(i, o) == AnnularDetector(i, o) for i, o on the bin edges its axis metadata states; every flexible
+-> integrate_radial(i, o) == AnnularDetector(i, o) for i, o on the bin edges its axis metadata states (a pick of pairs against the
+annular detector, EVERY edge as lower / upper limit and every single bin against sums of the bins); every flexible
 bin k == AnnularDetector(offset + k w, offset + (k+1) w) with w the METADATA sampling.
 """
 import itertools
@@ -34,6 +35,12 @@ def check(ctx):
         cases.append({"kind": "annular", "g": g, "e": e, "ens": ens})
         for step in (1.0, 0.5, 2.5):
             for io in ((0.0, None), (3.0, 40.0), (7.5, 33.0), (0.0, 21.3)):
+                cases.append({"kind": "flex", "g": g, "e": e, "ens": ens, "step": step, "inner": io[0], "outer": io[1]})
+        # non-dyadic steps: (limit - offset) / step is not exactly representable, so an index computed by truncation loses bins
+        for step in (0.2, 0.1, 0.3, 0.7):
+            for io in ((0.0, None), (10.0, 30.9)):
+                if q and ens != "pos3" and (step, io[0]) not in ((0.2, 0.0), (0.1, 10.0)):
+                    continue
                 cases.append({"kind": "flex", "g": g, "e": e, "ens": ens, "step": step, "inner": io[0], "outer": io[1]})
         for nr, na in ((1, 1), (2, 4), (3, 1)):
             for io in ((0.0, 40.0), (7.5, 21.3), (3.0, 10.0)):
@@ -158,6 +165,19 @@ def run_case(c):
             got = arr_of(pm.integrate_radial(edges[i], edges[j]))
             tr += 1
             close(got, annular(edges[i], edges[j]), "flex/integrate-vs-annular", "FlexibleAnnularDetector -> integrate_radial(%.4g, %.4g) vs AnnularDetector" % (edges[i], edges[j]))
+        # EVERY edge-aligned limit: [first edge, e_j), [e_j, last edge) and the single bin [e_j, e_j+1) against sums of the bins themselves
+        # (the bins were compared with AnnularDetector one by one above)
+        ne = len(edges)
+        cum = np.concatenate([np.zeros(parr.shape[:-2] + (1,)), np.cumsum(parr[..., : ne - 1, 0], axis=-1)], axis=-1)
+        for j in range(1, ne):
+            got = arr_of(pm.integrate_radial(edges[0], edges[j]))
+            close(got, cum[..., j], "flex/integrate-vs-bins", "integrate_radial(%.6g, %.6g) vs the sum of bins 0..%d" % (edges[0], edges[j], j - 1))
+            if j < ne - 1:
+                got = arr_of(pm.integrate_radial(edges[j], edges[-1]))
+                close(got, cum[..., ne - 1] - cum[..., j], "flex/integrate-vs-bins", "integrate_radial(%.6g, %.6g) vs the sum of bins %d..%d" % (edges[j], edges[-1], j, ne - 2))
+                got = arr_of(pm.integrate_radial(edges[j], edges[j + 1]))
+                close(got, parr[..., j, 0], "flex/integrate-vs-bins", "integrate_radial(%.6g, %.6g) vs bin %d" % (edges[j], edges[j + 1], j))
+            tr += 3
         return {"viol": viol, "obs": "%d bins" % n, "tr": tr, "ref": tr, "err": worst}
     det = abtem.SegmentedDetector(c["nr"], c["na"], c["inner"], c["outer"])
     pm = det.detect(w)
